@@ -81,13 +81,13 @@ End YW.
 
 (* ---------------------------------------------------------------- AR_psd / freq_response *)
 Fixpoint peval (c : list C) (z : C) : C :=
-  match c with [] => c0 | a :: c' => cadd a (cmul z (peval c' z)) end.
+  match c with [] => c0 | a :: c' => cr (cadd a (cmul z (peval c' z))) end.
 (* a = np.r_[1, -ak] ; denominator of freqz at z = e^{-jw} *)
 Definition ar_den (ak : list C) (z : C) : C := peval (c1 :: map cneg ak) z.
 (* hw = s / A(z) (freqz with b = [s], s = sigma_v ** 0.5); (hw * hw.conj()).real, doubled one-sided *)
 Definition AR_psd_pt (s : Q) (ak : list C) (onesided : bool) (z : C) : Q :=
-  let hw := cdiv (ofQ s) (ar_den ak z) in
-  let p := re (cmul hw (cconj hw)) in
+  let hw := cr (cdiv (ofQ s) (ar_den ak z)) in
+  let p := Qred (re (cmul hw (cconj hw))) in
   if onesided then 2 * p else p.
 Definition AR_psd (s : Q) (ak : list C) (onesided : bool) (zs : list C) : list Q :=
   map (AR_psd_pt s ak onesided) zs.
